@@ -5,129 +5,82 @@ from ..cfg import cfg_of
 from ..model import norm, parents, enclosing
 from ..util import require_func, calls_in, call_attr, is_name, const_str, kwarg, guards_of
 
-KINDS = [
-    # label, atoms
-    ("a DataIterator/_BaseIterator", dict(base=True, isstr=False, fdb=False)),
-    ("a string with from_string=True", dict(base=False, isstr=True, from_string=True, exists=False, url=False, fdb=False)),
-    ("a path of an existing file", dict(base=False, isstr=True, from_string=False, exists=True, url=False, fdb=False)),
-    ("a URL", dict(base=False, isstr=True, from_string=False, exists=False, url=True, fdb=False)),
-    ("a string that is neither", dict(base=False, isstr=True, from_string=False, exists=False, url=False, fdb=False)),
-    ("a FeatureDB", dict(base=False, isstr=False, fdb=True)),
-    ("an iterable of Features", dict(base=False, isstr=False, fdb=False)),
-]
-WANT = ["return data", "_FileIterator(temp file)", "_FileIterator", "_UrlIterator", "raise ValueError",
-        "_FeatureIterator(all_features)", "_FeatureIterator"]
-
-
-class _Stop(Exception):
-    pass
-
-
-def _atom(test, atoms, ctx, func):
-    t = norm(test)
-    if isinstance(test, ast.Call) and is_name(test.func, "isinstance") and len(test.args) == 2 and is_name(test.args[0], "data"):
-        cls = norm(test.args[1])
-        if cls == "_BaseIterator":
-            return atoms["base"]
-        if cls == "str":
-            return atoms["isstr"]
-        if cls == "FeatureDB":
-            return atoms["fdb"]
-        if cls.startswith("("):
-            names = [norm(e) for e in test.args[1].elts]
-            # a tuple of iterator classes stands for _BaseIterator only if it lists every subclass
-            base = ctx.proj.cls("iterators._BaseIterator")
-            subs = {c.name for c in ctx.proj.subclasses(base)}
-            concrete = {c.name for c in ctx.proj.subclasses(base, strict=True)}
-            # a listed class covers its own subclasses
-            covered = set()
-            for c in ctx.proj.subclasses(base):
-                if c.name in names:
-                    covered |= {k.name for k in ctx.proj.subclasses(c)}
-            if set(names) <= subs:
-                if concrete <= covered or "_BaseIterator" in names:
-                    return atoms["base"]
-                raise _Stop("isinstance test lists %s but misses iterator classes %s" % (names, sorted(concrete - covered)))
-        raise _Stop("unmodelled isinstance test %s" % t)
-    if isinstance(test, ast.Name) and test.id == "from_string":
-        return atoms.get("from_string", False)
-    if t == "os.path.exists(data)":
-        return atoms.get("exists", False)
-    if t == "is_url(data)":
-        return atoms.get("url", False)
-    if isinstance(test, ast.BoolOp):
-        vals = [_atom(v, atoms, ctx, func) for v in test.values]
-        return all(vals) if isinstance(test.op, ast.And) else any(vals)
-    if isinstance(test, ast.UnaryOp) and isinstance(test.op, ast.Not):
-        return not _atom(test.operand, atoms, ctx, func)
-    raise _Stop("unmodelled dispatch test %s" % t)
-
-
-def _walk(stmts, atoms, state, ctx, func):
-    for st in stmts:
-        if isinstance(st, ast.Expr) and isinstance(st.value, ast.Constant):
-            continue
-        if isinstance(st, ast.If):
-            # `if isinstance(data, str): data = data.encode()` inside the from_string block re-tests the dedented text
-            if state.get("tmp") and norm(st.test) == "isinstance(data, str)":
-                continue
-            if _atom(st.test, atoms, ctx, func):
-                r = _walk(st.body, atoms, state, ctx, func)
-            else:
-                r = _walk(st.orelse, atoms, state, ctx, func)
-            if r is not None:
-                return r
-            continue
-        if isinstance(st, ast.Try):
-            r = _walk(st.body + st.orelse + st.finalbody, atoms, state, ctx, func)
-            if r is not None:
-                return r
-            continue
-        if isinstance(st, ast.Return):
-            v = st.value
-            if isinstance(v, ast.Name) and v.id in state.get("made", {}):
-                v = state["made"][v.id]
-            if isinstance(v, ast.Name):
-                return "return " + v.id
-            if isinstance(v, ast.Call):
-                name = norm(v.func)
-                if state.get("tmpdata"):
-                    return "%s(temp file)" % name
-                if state.get("allfeatures"):
-                    return "%s(all_features)" % name
-                return name
-            return "return " + norm(v)
-        if isinstance(st, ast.Raise):
-            return "raise " + (norm(st.exc.func) if isinstance(st.exc, ast.Call) else norm(st.exc))
-        if isinstance(st, ast.Assign):
-            tgt = norm(st.targets[0])
-            val = norm(st.value)
-            if "NamedTemporaryFile" in val or "mkstemp" in val:
-                state["tmp"] = tgt
-            elif isinstance(st.value, ast.Call) and isinstance(st.targets[0], ast.Name) and isinstance(st.value.func, ast.Name):
-                state.setdefault("made", {})[tgt] = st.value
-            if tgt == "_kwargs['data']":
-                if state.get("tmp") and val.startswith(state["tmp"]):
-                    state["tmpdata"] = True
-                if val == "data.all_features()":
-                    state["allfeatures"] = True
-    return None
+def _run(ctx, func, args, self_obj=None, summaries=None, ext=None):
+    from ..absint import Interp, Unsupported
+    it = Interp(ctx)
+    for k, v in (summaries or {}).items():
+        it.summaries[k] = v
+    for k, v in (ext or {}).items():
+        it.ext_summaries[k] = v
+    try:
+        return it.run(func, args, self_obj=self_obj)
+    except Unsupported as e:
+        ctx.require(False, "%s outside the analysable subset: %s" % (func.qual, e))
 
 
 def r1(ctx):
+    """DataIterator's dispatch as a decision table obtained by abstract evaluation over the seven kinds of input."""
+    from ..absint import Sym, Opaque, StreamVal, Callback
     f = require_func(ctx, "iterators.DataIterator")
-    for (label, atoms), want in zip(KINDS, WANT):
-        try:
-            got = _walk(f.node.body, atoms, {}, ctx, f)
-        except _Stop as e:
-            ctx.ob("R1", False, "DataIterator dispatches %s to %s" % (label, want), func=f, sig="dispatch of %s: %s" % (label, e))
-            continue
-        ctx.ob("R1", got == want, "DataIterator given %s: %s" % (label, want), func=f, sig="dispatch of %s -> %s" % (label, got))
-    # every kind is wrapped with the same keyword set
-    kw = [n for n in ast.walk(f.node) if isinstance(n, ast.Assign) and is_name(n.targets[0], "_kwargs") and isinstance(n.value, ast.Call)]
-    ok = bool(kw) and {k.arg for k in kw[0].value.keywords} >= {"data", "checklines", "transform", "force_dialect_check", None}
-    ctx.ob("R1", ok, "all input forms are wrapped with the same checklines/transform/dialect settings", func=f,
-           sig="_kwargs carries %s" % (sorted(str(k.arg) for k in kw[0].value.keywords) if kw else None))
+    TF = Callback("transform", None)
+    DIALECT = {"fmt": "gff3"}
+    common = dict(checklines=Sym("n", "int", True), transform=TF, dialect=DIALECT)
+    ext = {"os.path.exists": lambda i, pos, k, node: Opaque("exists", "bool?")}
+    summ = {"iterators.is_url": lambda i, pos, k, node: Opaque("is_url", "bool?")}
+
+    def outcomes(data, **kw):
+        a = {"data": data}
+        a.update(common)
+        a.update(kw)
+        out = []
+        for t in _run(ctx, f, a, summaries=summ, ext=ext):
+            dec = {getattr(d[0], "name", None): d[1] for d in t.decisions if isinstance(d[0], Opaque) and d[0].kind == "bool?"}
+            cons = [e for e in t.events if e[0] == "construct" and e[1].startswith("iterators.")]
+            if t.result[0] == "raise":
+                res = "raise " + t.result[1]
+            elif cons:
+                res = cons[-1][1].split(".")[-1]
+            else:
+                r = t.result[1]
+                res = "return data" if isinstance(r, Opaque) and r.name == "IT" else "return %r" % (r,)
+            out.append((dec, res, cons[-1][3] if cons else None, t))
+        return out
+    base_ = ctx.proj.cls("iterators._BaseIterator")
+    rows = [("an iterator object (%s)" % c.name, outcomes(Opaque("IT", c.name)), {(): "return data"}) for c in ctx.proj.subclasses(base_, strict=True)]
+    ctx.floor("R1", len(rows), 3, "iterator classes")
+    rows += [
+        ("a string with from_string=True", outcomes(Sym("text", "str", True), from_string=True), {(): "_FileIterator"}),
+        ("a string", outcomes(Sym("path", "str", True)), {(("exists", True),): "_FileIterator", (("exists", False), ("is_url", True)): "_UrlIterator",
+                                                           (("exists", False), ("is_url", False)): "raise ValueError"}),
+        ("a FeatureDB", outcomes(Opaque("DB", "FeatureDB")), {(): "_FeatureIterator"}),
+        ("an iterable of Features", outcomes([Opaque("F", "Feature")]), {(): "_FeatureIterator"}),
+        ("a generator of Features", outcomes(StreamVal([Opaque("F", "Feature")])), {(): "_FeatureIterator"}),
+    ]
+    for label, outs, want in rows:
+        got = {tuple(sorted(d.items())): r for d, r, _kw, _t in outs}
+        ctx.ob("R1", got == want, "DataIterator given %s: %s" % (label, ", ".join("%s -> %s" % (dict(k) or "always", v) for k, v in want.items())), func=f,
+               sig="dispatch of %s -> %s" % (label, {(" ".join("%s=%s" % kv for kv in k) or "always"): v for k, v in sorted(got.items())}))
+        for d, res, kw, t in outs:
+            if kw is None:
+                continue
+            okc = getattr(kw.get("checklines"), "name", None) == "n" and getattr(kw.get("transform"), "name", None) == "transform" and kw.get("dialect") == DIALECT
+            ctx.ob("R1", okc, "all input forms are wrapped with the same checklines/transform/dialect settings", func=f,
+                   sig="%s: wrapped with checklines=%s transform=%s dialect=%s" % (label, getattr(kw.get("checklines"), "name", kw.get("checklines")),
+                                                                                   getattr(kw.get("transform"), "name", kw.get("transform")), "given" if kw.get("dialect") == DIALECT else kw.get("dialect")),
+                   nontrivial=False)
+            dv = kw.get("data")
+            if label.startswith("a string with from_string"):
+                ok = "Temporary" in repr(dv) or "mkstemp" in repr(dv) or "tmp" in repr(dv).lower()
+                writes = [e for e in t.events if e[0] in ("call-opaque",) and e[2] in ("write",)]
+                ctx.ob("R1", ok and bool(writes), "from_string text is written to a temporary file which is then read as a file", func=f, sig="from_string: data=%r, %d write(s)" % (dv, len(writes)))
+            elif label == "a string":
+                ctx.ob("R1", getattr(dv, "name", None) == "path", "a path or URL is handed on unchanged", func=f, sig="string: data=%r" % (dv,), nontrivial=False)
+            elif label == "a FeatureDB":
+                ctx.ob("R1", "all_features" in repr(dv), "a FeatureDB contributes all of its features", func=f, sig="FeatureDB: data=%r" % (dv,))
+            elif "iterable" in label:
+                ctx.ob("R1", isinstance(dv, list) and len(dv) == 1, "an iterable is handed on unchanged", func=f, sig="iterable: data=%r" % (dv,), nontrivial=False)
+            elif "generator" in label:
+                ctx.ob("R1", isinstance(dv, StreamVal) and dv.pos == 0, "a generator is handed on unconsumed", func=f, sig="generator: data=%r" % (dv,), nontrivial=False)
     # only the base class yields to consumers
     base = ctx.proj.cls("iterators._BaseIterator")
     iters = [c.qual for c in ctx.proj.subclasses(base) if "__iter__" in c.methods]
@@ -136,83 +89,49 @@ def r1(ctx):
 
 
 def r2(ctx):
+    """Peeking: evaluated on a one-shot stream and on a list of five symbolic items -- what peek returns is a prefix, and
+    what the iterator yields afterwards is every item, in order."""
+    from ..absint import Opaque, StreamVal, HostIter
     pk = require_func(ctx, "iterators._FeatureIterator.peek")
-    cfg = cfg_of(pk)
-    loops = [n for n in ast.walk(pk.node) if isinstance(n, ast.For)]
-    if not loops:
-        return _r2_islice(ctx, pk, cfg)
-    loop = loops[0]
-    src = loop.iter.args[0] if isinstance(loop.iter, ast.Call) and is_name(loop.iter.func, "enumerate") else loop.iter
-    islice = isinstance(src, ast.Call) and call_attr(src) == "islice"
-    if islice:
-        src = src.args[0]
-    ctx.ob("R2", norm(src) == "self.data", "peeking draws from the data source itself", node=loop, func=pk, sig="peek iterates %s" % norm(src))
-    item = loop.target.elts[-1].id if isinstance(loop.target, ast.Tuple) else loop.target.id
-    apps = [c for c in calls_in(pk.node) if call_attr(c) == "append" and loop in list(parents(c)) and c.args and is_name(c.args[0], item)]
-    ctx.ob("R2", len(apps) == 1, "every item taken while peeking is kept", node=loop, func=pk, sig="%d append(s) of the peeked item" % len(apps))
-    if apps:
-        look = norm(apps[0].func.value)
-        an = cfg.node_for(apps[0]).id
-        for b in [n for n in ast.walk(loop) if isinstance(n, (ast.Break, ast.Continue, ast.Return))]:
-            ok = cfg.dominates(an, cfg.node_for(b).id)
-            ctx.ob("R2", ok, "the item is kept before the loop can be left or continued", node=b, func=pk,
-                   sig="append dominates %s" % type(b).__name__.lower() if ok else "%s before the peeked item is kept" % type(b).__name__.lower())
-        head = cfg.node_for(loop).id
-        first = [t for t, l in cfg.succ[head] if l == "true"]
-        bypass = any(head in cfg.reachable(t, avoid={an}, include_start=True) for t in first if t != an)
-        ctx.ob("R2", not bypass, "no pass through the peek loop drops its item", node=loop, func=pk,
-               sig="append on every pass" if not bypass else "a pass through the peek loop skips the append")
-        re = [n for n in ast.walk(pk.node) if isinstance(n, ast.Assign) and norm(n.targets[0]) == "self.data"]
-        ok = len(re) == 1 and isinstance(re[0].value, ast.Call) and norm(re[0].value.func) in ("itertools.chain", "chain") and \
-            [norm(a) for a in re[0].value.args] == [look, "self.data"]
-        ctx.ob("R2", ok, "peeked items are chained back in front of the rest, in order", func=pk,
-               sig="self.data := %s" % (norm(re[0].value) if re else "not re-chained"))
-        if re:
-            g = [norm(t) for t, pol in guards_of(re[0], pk.node) if pol]
-            okg = g in ([], ["hasattr(self.data, '__next__')"])
-            ctx.ob("R2", okg, "re-chaining happens for every one-shot source (anything with __next__)", node=re[0], func=pk, sig="re-chain guard %s" % g)
-            rets = [n for n in ast.walk(pk.node) if isinstance(n, ast.Return)]
-            okr = all(cfg.node_for(r).id in cfg.reachable(cfg.node_for(loop).id) for r in rets) and all(norm(r.value) == look for r in rets)
-            okd = all(not (cfg.node_for(re[0]).id not in cfg.reachable(cfg.entry.id, avoid={cfg.node_for(r).id}) ) for r in rets)
-            ctx.ob("R2", okr, "peek returns the look-ahead list", func=pk, sig="peek returns %s" % [norm(r.value) for r in rets], nontrivial=False)
+    n_param = [p for p in pk.params if p != "self"][0]
+    for label, mk in (("a one-shot generator", lambda xs: StreamVal(xs, "data")), ("a list", lambda xs: list(xs))):
+        for n in (0, 2, 10):
+            xs = [Opaque("x%d" % i, "Feature") for i in range(5)]
+            so = Opaque("self", "obj")
+            so.attrs["data"] = mk(xs)
+            traces = _run(ctx, pk, {n_param: n}, self_obj=so)
+            ctx.ob("R2", len(traces) == 1, "peek takes one path through a given source", func=pk, sig="peek(%d) on %s: %d path(s)" % (n, label, len(traces)), nontrivial=False)
+            t = traces[0]
+            got = t.result[1] if t.result[0] == "return" else None
+            names = [getattr(x, "name", x) for x in got] if isinstance(got, (list, tuple)) else None
+            allnames = [x.name for x in xs]
+            ok = names is not None and names == allnames[:len(names)] and len(names) >= min(n, 5)
+            ctx.ob("R2", ok, "peek returns the first items of the source, in order", func=pk, sig="peek(%d) on %s returns %s" % (n, label, names))
+            rest = so.attrs.get("data")
+            try:
+                left = [getattr(x, "name", x) for x in rest]
+            except TypeError:
+                left = None
+            ctx.ob("R2", left == allnames, "after peeking the iterator still delivers every item, the peeked ones first, in the original order", func=pk,
+                   sig="after peek(%d) on %s the source yields %s" % (n, label, left))
     fpk = require_func(ctx, "iterators._FileIterator.peek")
-    loops = [n for n in ast.walk(fpk.node) if isinstance(n, ast.For)]
-    src = None
-    if loops:
-        src = loops[0].iter.args[0] if isinstance(loops[0].iter, ast.Call) and is_name(loops[0].iter.func, "enumerate") else loops[0].iter
-    ok = src is not None and norm(src) == "self._custom_iter()"
+    n_param = [p for p in fpk.params if p != "self"][0]
+    calls = []
+
+    def fresh(i, pos, kw, node):
+        calls.append(1)
+        return StreamVal([Opaque("l%d" % k, "Feature") for k in range(5)], "file pass %d" % len(calls))
+    so = Opaque("self", "obj")
+    so.attrs["data"] = Opaque("path", "str")
+    traces = _run(ctx, fpk, {n_param: 2}, self_obj=so, summaries={"iterators._FileIterator._custom_iter": fresh, "iterators._BaseIterator._custom_iter": fresh})
+    t = traces[0]
+    got = t.result[1] if t.result[0] == "return" else None
+    names = [getattr(x, "name", x) for x in got] if isinstance(got, (list, tuple)) else None
+    ok = names is not None and names == ["l%d" % k for k in range(len(names))] and len(names) >= 2 and len(calls) >= 1
     ctx.ob("R2", ok, "peeking a file re-opens it (a fresh _custom_iter()), so iteration later starts from the first line", func=fpk,
-           sig="file peek iterates %s" % (norm(src) if src is not None else None))
-    stores = [n for n in ast.walk(fpk.node) if isinstance(n, ast.Assign) and norm(n.targets[0]).startswith("self.data")]
-    ctx.ob("R2", not stores, "peeking a file does not touch the data source", func=fpk, sig="file peek stores %s" % [norm(s) for s in stores], nontrivial=False)
-
-
-def _r2_islice(ctx, pk, cfg):
-    """peek written as  look = list(itertools.islice(self.data, k))  + re-chain."""
-    tk = [n for n in ast.walk(pk.node) if isinstance(n, ast.Assign) and isinstance(n.targets[0], ast.Name) and isinstance(n.value, ast.Call)
-          and is_name(n.value.func, "list") and n.value.args and isinstance(n.value.args[0], ast.Call) and call_attr(n.value.args[0]) == "islice"]
-    ctx.require(len(tk) == 1, "_FeatureIterator.peek neither loops over its data nor takes an islice of it")
-    look = tk[0].targets[0].id
-    sl = tk[0].value.args[0]
-    ok = sl.args and norm(sl.args[0]) == "self.data" and len(sl.args) == 2
-    ctx.ob("R2", ok, "peeking draws a bounded prefix from the data source itself, keeping every item drawn", node=tk[0], func=pk,
-           sig="peek takes %s" % norm(sl))
-    re = [n for n in ast.walk(pk.node) if isinstance(n, ast.Assign) and norm(n.targets[0]) == "self.data"]
-    ok = len(re) == 1 and isinstance(re[0].value, ast.Call) and norm(re[0].value.func) in ("itertools.chain", "chain") and \
-        [norm(a) for a in re[0].value.args] == [look, "self.data"] and cfg.node_for(re[0]).id in cfg.reachable(cfg.node_for(tk[0]).id)
-    ctx.ob("R2", ok, "peeked items are chained back in front of the rest, in order", func=pk, sig="self.data := %s" % (norm(re[0].value) if re else "not re-chained"))
-    if re:
-        g = [norm(t) for t, pol in guards_of(re[0], pk.node) if pol]
-        ctx.ob("R2", g in ([], ["hasattr(self.data, '__next__')"]), "re-chaining happens for every one-shot source", node=re[0], func=pk, sig="re-chain guard %s" % g)
-    rets = [n for n in ast.walk(pk.node) if isinstance(n, ast.Return)]
-    ctx.ob("R2", bool(rets) and all(norm(r.value) == look for r in rets), "peek returns the look-ahead list", func=pk, sig="peek returns %s" % [norm(r.value) for r in rets], nontrivial=False)
-    fpk = require_func(ctx, "iterators._FileIterator.peek")
-    loops = [n for n in ast.walk(fpk.node) if isinstance(n, ast.For)]
-    src = None
-    if loops:
-        src = loops[0].iter.args[0] if isinstance(loops[0].iter, ast.Call) and is_name(loops[0].iter.func, "enumerate") else loops[0].iter
-    ok = src is not None and norm(src) == "self._custom_iter()"
-    ctx.ob("R2", ok, "peeking a file re-opens it (a fresh _custom_iter())", func=fpk, sig="file peek iterates %s" % (norm(src) if src is not None else None))
+           sig="file peek reads a fresh pass: %s" % names)
+    stores = [e for e in t.events if e[0] == "setattr" and e[2] == "data"]
+    ctx.ob("R2", not stores, "peeking a file does not touch the data source", func=fpk, sig="file peek stores %d" % len(stores), nontrivial=False)
 
 
 def r3(ctx):
@@ -245,116 +164,91 @@ def r3(ctx):
             ok = not applied
             ctx.ob("R3", ok, "outside the common iteration path the transform is only stored or forwarded, never applied", node=use, func=f,
                    sig="%s: transform stored/forwarded" % f.name if ok else "%s uses the transform: %s" % (f.name, norm(getattr(par, "_parent", par)) [:70]), nontrivial=False)
-    if not sites or sites[0][0] is not it:
-        return
-    f, c = sites[0]
-    cfg = cfg_of(it)
-    loops = [n for n in ast.walk(it.node) if isinstance(n, ast.For)]
-    ctx.require(len(loops) == 1, "__iter__ no longer has a single loop")
-    loop = loops[0]
-    item = loop.target.id
-    inner = [p for p in parents(c) if isinstance(p, (ast.For, ast.While))]
-    ok = inner == [loop] and len(c.args) == 1 and is_name(c.args[0], item)
-    ctx.ob("R3", ok, "the transform is called once per item, with the item", node=c, func=it, sig="transform call %s in %d loop(s)" % (norm(c), len(inner)))
-    asg = None
-    for p in parents(c):
-        if isinstance(p, ast.Assign):
-            asg = p
-            break
-    res = asg.targets[0].id if asg is not None and isinstance(asg.targets[0], ast.Name) else None
-    ctx.ob("R3", res is not None, "the transform's result replaces the item", node=c, func=it, sig="transform result bound to %s" % res, nontrivial=False)
-    ys = [n for n in ast.walk(loop) if isinstance(n, ast.Yield)]
-    ctx.floor("R3", len(ys), 1, "yields in __iter__")
-    tn = cfg.node_for(c).id
-    for y in ys:
-        yn = cfg.node_for(y)
-        after = yn.id in cfg.reachable(tn) and not (tn in cfg.reachable(yn.id, avoid={cfg.node_for(loop).id}))
-        g = [(norm(t), pol) for t, pol in guards_of(y, it.node)]
-        if after and any(t == "self.transform" and pol for t, pol in g):
-            ok = (res, True) in g and norm(y.value) == res
-            ctx.ob("R3", ok, "a transformed item is yielded exactly when the transform's result is true", node=y, func=it,
-                   sig="transformed yield guarded by %s" % [t for t, p in g if t != "self.transform"])
-        else:
-            ok = g == [("self.transform", False)] and norm(y.value) == item
-            ctx.ob("R3", ok, "without a transform every item is yielded", node=y, func=it, sig="plain yield guarded by %s" % g)
-    # nothing else skips: the loop body has no continue/break/return
-    jumps = [n for n in ast.walk(loop) if isinstance(n, (ast.Continue, ast.Break, ast.Return))]
-    ctx.ob("R3", not jumps, "only a false transform result skips an item", node=loop, func=it,
-           sig="no other skip in __iter__" if not jumps else "%s in the iteration loop" % type(jumps[0]).__name__.lower())
-    ok = norm(loop.iter) == "self._custom_iter()"
-    ctx.ob("R3", ok, "the common path iterates the subclass's raw item stream", node=loop, func=it, sig="__iter__ iterates %s" % norm(loop.iter), nontrivial=False)
+    # what the common path hands out, for three symbolic items
+    from ..absint import Opaque, Callback
+    xs = [Opaque("x%d" % i, "Feature") for i in range(3)]
+    ys_ = {x.name: Opaque("t(%s)" % x.name, "Feature") for x in xs}
+
+    def run_iter(tf):
+        so = Opaque("self", "obj")
+        so.attrs["dialect"] = None
+        so.attrs["transform"] = tf
+        traces = _run(ctx, it, {}, self_obj=so, summaries={"iterators._BaseIterator._custom_iter": lambda i, pos, kw, node: list(xs)})
+        outs = []
+        for t in traces:
+            outs.append(([getattr(e[1], "name", e[1]) for e in t.events if e[0] == "yield"], [[getattr(a_, "name", a_) for a_ in e[2]] for e in t.events if e[0] == "callback"]))
+        return outs
+    outs = run_iter(None)
+    ctx.ob("R3", outs == [(["x0", "x1", "x2"], [])], "without a transform every item is yielded", func=it, sig="no transform: yields %s" % [o[0] for o in outs])
+    outs = run_iter(Callback("transform", None, fn=lambda pos, kw: ys_[pos[0].name]))
+    ctx.ob("R3", outs == [(["t(x0)", "t(x1)", "t(x2)"], [["x0"], ["x1"], ["x2"]])], "the transform is called once per item, with the item, and its result replaces the item", func=it,
+           sig="transform: yields %s, called with %s" % ([o[0] for o in outs], [o[1] for o in outs]))
+    outs = run_iter(Callback("transform", None, fn=lambda pos, kw: None if pos[0].name == "x1" else ys_[pos[0].name]))
+    ctx.ob("R3", [o[0] for o in outs] == [["t(x0)", "t(x2)"]], "a transformed item is yielded exactly when the transform's result is true; only a false result skips an item", func=it,
+           sig="transform rejecting x1: yields %s" % [o[0] for o in outs])
+    outs = run_iter(Callback("transform", None, fn=lambda pos, kw: False))
+    ctx.ob("R3", [o[0] for o in outs] == [[]], "a transform that rejects everything yields nothing", func=it, sig="transform rejecting all: yields %s" % [o[0] for o in outs], nontrivial=False)
 
 
 def r4(ctx):
+    """create_db: the importer receives the already-peeked iterator and does not peek again -- read off the importer's
+    constructor arguments on the abstract trace."""
+    from ..absint import Sym, Opaque
     cd = require_func(ctx, "create.create_db")
-    cfg = cfg_of(cd)
-    mk = [n for n in ast.walk(cd.node) if isinstance(n, ast.Assign) and is_name(n.targets[0], "iterator") and isinstance(n.value, ast.Call)
-          and norm(n.value.func) == "iterators.DataIterator"]
-    ctx.require(mk, "create_db no longer builds a DataIterator first")
-    st = {norm(n.targets[0]): n for n in ast.walk(cd.node) if isinstance(n, ast.Assign) and norm(n.targets[0]).startswith("kwargs[")}
-    d = st.get("kwargs['data']")
-    ok = d is not None and norm(d.value) == "iterator"
-    ctx.ob("R4", ok, "the importer receives the already-peeked iterator, not the original data", func=cd,
-           sig="importer data := %s" % (norm(d.value) if d is not None else "the original data"))
-    c = st.get("kwargs['checklines']")
-    ok = c is not None and norm(c.value) == "0"
-    ctx.ob("R4", ok, "the importer does not peek again (checklines=0)", func=cd, sig="importer checklines := %s" % (norm(c.value) if c is not None else "unchanged"))
-    ctor = [x for x in calls_in(cd.node) if is_name(x.func, "cls")]
-    ok = bool(ctor) and d is not None and c is not None and all(
-        cfg.dominates(cfg.node_for(s).id, cfg.node_for(ctor[0]).id) for s in (d, c))
-    ctx.ob("R4", ok, "both settings are in place before the importer is constructed", func=cd,
-           sig="kwargs fixed before cls(**kwargs)" if ok else "importer constructed before data/checklines are replaced")
-    last = None
-    for n in ast.walk(cd.node):
-        if isinstance(n, ast.Call) and call_attr(n) == "update" and is_name(n.func.value, "kwargs") and any(k.arg is None and is_name(k.value, "_locals") for k in n.keywords):
-            last = n
-    if last is not None and d is not None:
-        ok = cfg.node_for(d).id in cfg.reachable(cfg.node_for(last).id)
-        ctx.ob("R4", ok, "the replacement is not undone by the later kwargs.update(**_locals)", func=cd,
-               sig="data replaced after kwargs.update(**_locals)" if ok else "kwargs.update(**_locals) overwrites the peeked iterator", nontrivial=False)
+    n = 0
+    for fmt in ("gff3", "gtf"):
+        def s_di(i, pos, kw, node):
+            o = Opaque("ITER", "obj")
+            o.attrs["dialect"] = {"fmt": fmt}
+            o.attrs["directives"] = Opaque("directives", "list")
+            return o
+        for t in _run(ctx, cd, {"data": Sym("data", "str", True), "dbfn": Sym("dbfn", "str", True), "checklines": 7}, summaries={"iterators.DataIterator": s_di}):
+            for e in t.events:
+                if e[0] == "construct" and e[1] in ("create._GFFDBCreator", "create._GTFDBCreator"):
+                    n += 1
+                    d = e[3].get("data")
+                    ok = isinstance(d, Opaque) and d.name == "ITER"
+                    ctx.ob("R4", ok, "the importer receives the already-peeked iterator, not the original data", func=cd,
+                           sig="importer data := %s" % ("the peeked iterator" if ok else "the original data" if getattr(d, "name", None) == "data" else repr(d)))
+                    c = e[3].get("checklines")
+                    ctx.ob("R4", c == 0 and not isinstance(c, bool), "the importer does not peek again (checklines=0)", func=cd, sig="importer checklines := %r" % (getattr(c, "name", c),))
+    ctx.floor("R4", n, 2, "importer constructions in create_db")
 
 
 def r5(ctx):
+    """inspect(): evaluated on three symbolic features with and without a limit."""
+    from ..absint import Sym, Opaque
     f = require_func(ctx, "inspect.inspect")
-    cfg = cfg_of(f)
-    loops = [n for n in ast.walk(f.node) if isinstance(n, ast.For) and isinstance(n.iter, ast.Name)]
-    main = None
-    for l in loops:
-        v = [n for n in ast.walk(f.node) if isinstance(n, ast.Assign) and is_name(n.targets[0], l.iter.id) and "DataIterator" in norm(n.value)]
-        if v:
-            main = l
-    ctx.require(main is not None, "inspect no longer loops over a DataIterator")
-    incs = [n for n in ast.walk(main) if isinstance(n, ast.AugAssign) and is_name(n.target, "feature_count") and norm(n.value) == "1" and isinstance(n.op, ast.Add)]
-    ctx.ob("R5", len(incs) == 1, "each iterated feature is counted once", node=main, func=f, sig="%d increment(s) of feature_count" % len(incs))
-    if len(incs) == 1:
-        inc = cfg.node_for(incs[0]).id
-        head = cfg.node_for(main).id
-        first = [t for t, l in cfg.succ[head] if l == "true"]
-        escapes = False
-        for t in first:
-            if t == inc:
-                continue
-            r = cfg.reachable(t, avoid={inc}, include_start=True)
-            if head in r or cfg.exit.id in r or any(isinstance(cfg.nodes[n].stmt, ast.Break) for n in r):
-                escapes = True
-        ctx.ob("R5", not escapes, "no pass through the loop (continue / break) misses the count", node=main, func=f,
-               sig="count on every pass" if not escapes else "a pass through the inspect loop skips the count")
-        g = guards_of(incs[0], main)
-        ctx.ob("R5", not g, "the count does not depend on what the feature looks like", node=incs[0], func=f, sig="count guards %s" % [norm(t) for t, _ in g])
-        brk = [n for n in ast.walk(main) if isinstance(n, ast.Break)]
-        for b in brk:
-            t = [norm(t_) for t_, pol in guards_of(b, main)]
-            ok = cfg.dominates(inc, cfg.node_for(b).id) and any("feature_count == limit" in x for x in t)
-            ctx.ob("R5", ok, "the limit is tested after counting, against the count", node=b, func=f, sig="break under %s after the count" % t if ok else "limit test %s not after the count" % t)
-    ret = [n for n in ast.walk(f.node) if isinstance(n, ast.Assign) and norm(n.targets[0]) == "new_results['feature_count']"]
-    ok = bool(ret) and norm(ret[0].value) == "feature_count"
-    ctx.ob("R5", ok, "the reported feature_count is that counter", func=f, sig="reported feature_count := %s" % (norm(ret[0].value) if ret else None))
-    upd = [c for c in calls_in(f.node) if call_attr(c) == "update" and "results[" in norm(c.func.value)]
-    okk = any(norm(c.args[0]) == "[getattr(f, obj_attr)]" for c in upd if c.args) and any(norm(c.args[0]) == "f.attributes.keys()" for c in upd if c.args)
-    ctx.ob("R5", okk, "per-attribute counters are updated with the feature's own value / keys", func=f, sig="inspect counters updated with %s" % sorted(norm(c.args[0]) for c in upd if c.args))
-    di = [c for c in calls_in(f.node) if norm(c.func) == "iterators.DataIterator"]
-    ok = bool(di) and len(di[0].args) == 1 and is_name(di[0].args[0], "data")
-    ctx.ob("R5", ok, "inspect iterates the data through DataIterator", func=f, sig="inspect wraps %s" % (norm(di[0]) if di else None), nontrivial=False)
+
+    def feats():
+        out = []
+        for name, ft, chrom, keys in (("f0", "gene", "chr1", ["ID"]), ("f1", "exon", "chr1", ["ID", "Parent"]), ("f2", "gene", "chr2", [])):
+            o = Opaque(name, "Feature")
+            o.attrs.update(dict(featuretype=ft, chrom=chrom, seqid=chrom, attributes={k: [Sym("v", "str", True)] for k in keys}))
+            out.append(o)
+        return out
+    seen_wrap = []
+
+    def s_di(i, pos, kw, node):
+        seen_wrap.append(getattr(pos[0] if pos else kw.get("data"), "name", None))
+        return feats()
+    for label, limit, want_n in (("no limit", None, 3), ("limit=2", 2, 2), ("limit larger than the input", 10, 3)):
+        traces = _run(ctx, f, {"data": Sym("data", "any", True), "limit": limit, "verbose": False}, summaries={"iterators.DataIterator": s_di})
+        for t in traces:
+            r = t.result[1] if t.result[0] == "return" else None
+            ok = isinstance(r, dict) and r.get("feature_count") == want_n
+            ctx.ob("R5", ok, "each iterated feature is counted once; the count stops at the limit", func=f,
+                   sig="inspect(%s): feature_count %r" % (label, r.get("feature_count") if isinstance(r, dict) else t.result[:2]))
+            if isinstance(r, dict) and limit is None:
+                ft = r.get("featuretype")
+                ak = r.get("attribute_keys")
+                ok2 = ft == {"gene": 2, "exon": 1} and ak == {"ID": 2, "Parent": 1} and r.get("chrom") == {"chr1": 2, "chr2": 1}
+                ctx.ob("R5", ok2, "per-attribute counters are updated with the feature's own value / keys", func=f, sig="inspect counters featuretype=%s attribute_keys=%s" % (ft, ak))
+            if isinstance(r, dict) and limit == 2:
+                ok3 = r.get("featuretype") == {"gene": 1, "exon": 1}
+                ctx.ob("R5", ok3, "the limit is tested after counting, against the count (exactly `limit` features are looked at)", func=f,
+                       sig="inspect(limit=2) featuretype=%s" % (r.get("featuretype"),))
+    ctx.ob("R5", bool(seen_wrap) and all(x == "data" for x in seen_wrap), "inspect iterates the data through DataIterator", func=f, sig="inspect wraps %s" % sorted(set(map(str, seen_wrap))), nontrivial=False)
 
 
 def check(ctx):
